@@ -14,20 +14,29 @@ def run(ctx):
                 "get_variants filter combination, before and after a write/read cycle. non-trivial = distinct "
                 "(forest, name concretisation)")
     ctx.assumptions += ["a filed variant object is re-added only to its own container or below itself (scope of the statement)",
+                        "bottom-up construction (sub-trees built on a variant outside the forest, then attached) is explored on its own 8-object pool",
                         "get_variants: only the clauses of the statement are checked (no duplicates, UID order, arch/type "
                         "membership, no filter = everything); which filtered sub-trees recursion enters is left open"]
     import concurrent.futures
     base = open(core.os.path.join(core.SPEC_DIR, "MC_Forest.cfg")).read()
 
+    # bottom-up construction (children added to a variant that is not in the forest yet, the sub-tree attached afterwards):
+    # its own pool, scope switch on
+    bottom_up = base.replace("Obj <- MCObj", "Obj <- MCObj3").replace("BottomUp = FALSE", "BottomUp = TRUE")
+
     def mc(job):
         dev, invs = job
         if dev is None:
             return job, ctx.tlc("MC_Forest", "MC_Forest.cfg", must_cover=["Next"], workers=4)
+        if dev == "BottomUp":
+            return job, ctx.tlc("MC_Forest", cfg_text=bottom_up, must_cover=["Next"], workers=2)
+        if dev == "Dev_UidSubtreeUnchecked":
+            return job, ctx.tlc("MC_Forest", cfg_text=bottom_up.replace(dev + " = FALSE", dev + " = TRUE"), expect_error=True, count=False, workers=2)
         return job, ctx.tlc("MC_Forest", cfg_text=base.replace(dev + " = FALSE", dev + " = TRUE"), expect_error=True, count=False, workers=3)
-    with concurrent.futures.ThreadPoolExecutor(max_workers=6) as ex:
-        results = list(ex.map(mc, [(None, None)] + DEVS))
+    with concurrent.futures.ThreadPoolExecutor(max_workers=8) as ex:
+        results = list(ex.map(mc, [(None, None), ("BottomUp", None)] + DEVS + [("Dev_UidSubtreeUnchecked", {"UidUnique", "Findable"})]))
     for (dev, invs), r in results:
-        if dev is None:
+        if dev in (None, "BottomUp"):
             ctx.require_ok(r)
             continue
         if r.violated not in invs:
@@ -37,6 +46,12 @@ def run(ctx):
     states = []
     r = ctx.tlc("ForestGen", "ForestGen.cfg", on_emit=states.append, count=False)
     ctx.require_ok(r)
+    gen_base = open(core.os.path.join(core.SPEC_DIR, "ForestGen.cfg")).read()
+    bu = []
+    ctx.require_ok(ctx.tlc("ForestGen", cfg_text=gen_base.replace("Obj <- MCObj", "Obj <- MCObj3").replace("BottomUp = FALSE", "BottomUp = TRUE"),
+                           on_emit=bu.append, count=False))
+    ctx.notes["distinct_forests_bottom_up"] = len(bu)
+    states += bu
     if not ctx.quick:
         cfg2 = open(core.os.path.join(core.SPEC_DIR, "ForestGen.cfg")).read().replace("Obj <- MCObj", "Obj <- MCObj2")
         more = []
